@@ -27,6 +27,12 @@ def mkwork(prefix="sysloss-verif-"):
 
 def _java(args, env=None, cwd=SPEC_DIR, timeout=None, gc="-XX:+UseParallelGC", heap=None):
     cmd = ["java", gc, "-Xss64m"]
+    # TLC unpacks its standard modules into a fresh java.io.tmpdir/tlc-* directory on every start and leaves it there:
+    # keep those inside the run's scratch directory (removed with it) instead of littering /tmp
+    if "-metadir" in args:
+        tmpd = os.path.join(os.path.dirname(args[args.index("-metadir") + 1]), "jtmp")
+        os.makedirs(tmpd, exist_ok=True)
+        cmd.append("-Djava.io.tmpdir=" + tmpd)
     if heap:
         cmd.append("-Xmx" + heap)
     cmd += ["-cp", JAR_CP, "tlc2.TLC"] + args
